@@ -24,55 +24,98 @@ Definition pot (s : state) : nat :=
     | _ => 0
     end.
 
+Lemma nbp_cons : forall ch ev, nbp (ev :: ch) = (if is_bp ev then 0 else 1) + nbp ch.
+Proof. intros. unfold nbp. cbn. destruct (is_bp ev); reflexivity. Qed.
+Lemma nbp_nil : nbp [] = 0. Proof. reflexivity. Qed.
+Arguments nbp : simpl never.
+
 Definition p_over (s : state) : Prop := p_pc s = PExit \/ p_pc s = PDone \/ p_pc s = PDead.
-Definition in_run (s : state) : option bool :=   (* Some d inside run() before the join returns *)
-  match c_pc s with RLoad d _ _ | RStore d _ _ | RUnpark d _ _ | RJoin d _ _ => Some d | _ => None end.
 Definition kicks (s : state) : nat := count is_kick (log s).
 
-Definition prog_inv (s : state) : Prop :=
-  (* channel accounting *)
+(* ---- 1. channel accounting and the discipline counter (any configuration) ------------------ *)
+Definition acct_inv (s : state) : Prop :=
   count is_send (log s) = count is_recv (log s) + length (chan s) /\
   count is_send (log s) + count is_bp_recv (log s) = count is_recv (log s) + count is_bp_send (log s) + nbp (chan s) /\
-  (* discipline *)
-  (undisc s = false -> count is_cont (log s) <= count is_bp_recv (log s)) /\
-  (* the kick happens once, inside run() *)
+  (undisc s = false -> count is_cont (log s) <= count is_bp_recv (log s)).
+
+Lemma acct_init : forall cs b, acct_inv (init cs b).
+Proof. intros. unfold acct_inv. cbn. rewrite nbp_nil. lia. Qed.
+
+Lemma acct_step : forall cf s t s', acct_inv s -> step cf s t = Some s' -> acct_inv s'.
+Proof.
+  intros cf s t s' Hi H. destruct cf as [fx sp cp0].
+  destruct t; step_inv s H; unfold acct_inv, count in *; cbn in *;
+    rewrite ?app_length, ?nbp_snoc, ?nbp_cons, ?nbp_nil in *; cbn in *;
+    repeat match goal with e : event |- _ => destruct e; cbn in * end;
+    try match goal with |- context [undisc] => idtac | ud : bool |- _ => idtac end;
+    try (destruct Hi as (H1 & H2 & H3); repeat split; try lia;
+         try (intro Hu; try (apply orb_false_iff in Hu; destruct Hu as [Hu Hv]; apply negb_false_iff in Hv; apply Nat.ltb_lt in Hv);
+              try specialize (H3 Hu); lia)).
+Qed.
+
+(* ---- 2. the flag and the kick (any configuration) ------------------------------------------- *)
+Definition flag_inv (s : state) : Prop :=
   (handle s = true -> kicks s = 0) /\
-  (match c_pc s with RLoad _ _ _ | RStore _ _ _ | RUnpark _ _ _ => kicks s = 0 | _ => True end) /\
-  (* the flag *)
-  (is_done s = true -> p_over s \/ (exists d es o, c_pc s = RUnpark d es o) \/ ((exists d es o, c_pc s = RJoin d es o) /\ kicks s >= 1)) /\
   (match c_pc s with
-   | RUnpark _ _ _ => is_done s = true
+   | RLoad _ _ _ | RStore _ _ _ => kicks s = 0
+   | RUnpark _ _ _ => kicks s = 0 /\ is_done s = true
    | RJoin _ _ _ => (kicks s >= 1 /\ is_done s = true) \/ (kicks s = 0 /\ p_over s)
    | RSpawn _ _ => is_done s = false
    | _ => True
    end) /\
-  (* what still fits *)
+  (is_done s = true -> p_over s \/ match c_pc s with RUnpark _ _ _ | RJoin _ _ _ => True | _ => False end) /\
+  (match p_pc s with PLoad [] _ => False | _ => True end).
+
+Lemma flag_init : forall cs b, flag_inv (init cs b).
+Proof. intros. unfold flag_inv, kicks, p_over. cbn. intuition discriminate. Qed.
+
+Lemma flag_step : forall cf s t s', struct_inv s -> flag_inv s -> step cf s t = Some s' -> flag_inv s'.
+Proof.
+  intros cf s t s' Hst Hi H. destruct cf as [fx sp cp0].
+  destruct t; step_inv s H; unfold flag_inv, struct_inv, p_gone, kicks, p_over, count in *; cbn in *.
+  all: try match goal with cp : cpc |- _ => destruct cp end; cbn in *.
+  all: repeat match goal with |- context [next_pc ?es ?o] => destruct es; cbn end.
+  all: try solve [intuition (try lia; try discriminate; try congruence)].
+Qed.
+
+(* ---- 3. what still fits into the channel during run() (repaired code, no spurious wake-up) --- *)
+Definition in_run (s : state) : option bool :=   (* Some d inside run() before the join returns *)
+  match c_pc s with RLoad d _ _ | RStore d _ _ | RUnpark d _ _ | RJoin d _ _ => Some d | _ => None end.
+
+Definition fit_inv (s : state) : Prop :=
   (in_run s = Some true -> undisc s = false -> length (chan s) + pot s <= 1) /\
-  (* the kick's token is there for the one park that can still happen *)
   (match c_pc s, p_pc s with
    | RJoin _ _ _, PLock _ _ _ | RJoin _ _ _, PSend _ _ _ | RJoin _ _ _, PPark _ _ => kicks s >= 1 -> token s = true
    | _, _ => True
-   end) /\
-  (match p_pc s with PLoad [] _ => False | _ => True end).
+   end).
 
-Lemma prog_init : forall cs b, prog_inv (init cs b).
-Proof. intros. unfold prog_inv, kicks, in_run, pot. cbn. intuition (try lia; try discriminate). Qed.
+Lemma fit_init : forall cs b, fit_inv (init cs b).
+Proof. intros. unfold fit_inv, in_run. cbn. split; [discriminate|exact I]. Qed.
 
-Ltac crush_counts :=
-  unfold prog_inv, quiet_inv, quiet_ok, past_final, final_ev_ok, struct_inv, p_gone, p_over, kicks, in_run, pot, parked, count in *;
-  cbn in *.
+Ltac unfold_all :=
+  unfold fit_inv, flag_inv, acct_inv, quiet_inv, quiet_ok, past_final, final_ev_ok, struct_inv, p_gone, p_over,
+         kicks, in_run, pot, parked, count in *; cbn in *.
 
-Lemma prog_step : forall k s t s',
-  struct_inv s -> quiet_inv s -> prog_inv s -> step (repaired k) s t = Some s' -> prog_inv s'.
+Lemma fit_step : forall k s t s',
+  struct_inv s -> quiet_inv s -> acct_inv s -> flag_inv s -> fit_inv s ->
+  step (repaired k) s t = Some s' -> fit_inv s'.
 Proof.
-  intros k s t s' Hst Hq Hi H. unfold repaired in H.
-  destruct t; step_inv s H; crush_counts.
-  all: try match goal with cp : cpc |- _ => destruct cp end.
-  all: try match goal with pp : ppc |- _ => destruct pp end.
-  all: repeat match goal with |- context [next_pc ?es ?o] => destruct es; cbn end.
-  all: rewrite ?app_length, ?nbp_snoc in *; cbn in *.
-  all: repeat match goal with e : event |- _ => destruct e; cbn in * end.
-  all: repeat match goal with b : bool |- _ => destruct b; cbn in * end.
-  all: try solve [intuition (try lia; try discriminate; try congruence; eauto 7)].
-  all: idtac "left". 
-Abort.
+  intros k s t s' Hst Hq Ha Hf Hi H. unfold repaired in H.
+  destruct t.
+  - step_inv s H; unfold_all.
+    all: try solve [split; [discriminate | exact I]].
+    all: try solve [destruct Hi as [Hi1 Hi2]; split; [exact Hi1 | destruct pp; exact Hi2 || exact I]].
+    all: try match goal with |- context [isnil ?c] => destruct c; cbn in *; rewrite ?nbp_nil in * end.
+    all: destruct pp; cbn in *.
+    all: try solve [split; [discriminate | exact I]].
+    all: try (destruct dn; cbn in * ); try (destruct tk; cbn in * ).
+    all: try solve [intuition (try lia; try congruence; try discriminate)].
+  - step_inv s H; unfold_all.
+    all: repeat match goal with |- context [next_pc ?es ?o] => destruct es; cbn end.
+    all: destruct cp; cbn in *.
+    all: try solve [split; [discriminate | exact I]].
+    all: rewrite ?app_length in *; cbn in *.
+    all: try (destruct dn; cbn in * ); try (destruct tk; cbn in * ).
+    all: try solve [intuition (try lia; try congruence; try discriminate)].
+Qed.
+
